@@ -8,6 +8,8 @@ warnings.filterwarnings("ignore")
 
 import numpy as np  # noqa: E402
 
+from sklearn.experimental import enable_iterative_imputer  # noqa: E402,F401  (documented opt-in)
+
 import skcriteria as skc  # noqa: E402
 from skcriteria.core.data import DecisionMatrix, mkdm  # noqa: E402
 
